@@ -4,6 +4,8 @@ import (
 	"fmt"
 	"hash/fnv"
 	"math"
+	"runtime"
+	"runtime/debug"
 	"testing"
 
 	"pgregory.net/rapid"
@@ -502,9 +504,13 @@ func FuzzTSDBlock(f *testing.F) {
 
 // TestTSDStream: the multi-field block stream (tsd_stream.go) returns every field id with a
 // decoder that reads the field's block like the model; its pooled decoder is shared by all
-// fields of a stream and handed back on Close.
+// fields of a stream and handed back on Close. After one complete reader life cycle 0..3 readers of
+// the same bytes are open together and read in turns (each must see its own position).
 func TestTSDStream(t *testing.T) {
+	defer runtime.GOMAXPROCS(runtime.GOMAXPROCS(1)) // pool control: see tsd_owners_test.go
 	rapid.Check(t, func(t *rapid.T) {
+		defer debug.SetGCPercent(debug.SetGCPercent(-1))
+		drainDecoderPool()
 		nFields := rapid.IntRange(0, 5).Draw(t, "fields")
 		n := genLen(t, "n")
 		if n > 100 {
@@ -550,6 +556,7 @@ func TestTSDStream(t *testing.T) {
 				t.Fatalf("stream yields field #%d, wrote %d", i, len(fields))
 			}
 			id, dec := r.Next()
+			seenDecoders[dec] = struct{}{}
 			if id != fields[i].id {
 				t.Fatalf("field #%d id %d, wrote %d", i, id, fields[i].id)
 			}
@@ -561,7 +568,46 @@ func TestTSDStream(t *testing.T) {
 			t.Fatalf("stream yields %d fields, wrote %d", i, len(fields))
 		}
 		r.Close()
-		ev.Case("TestTSDStream", canon, nt, []string{fmt.Sprintf("fields=%d", nFields)},
-			map[string]any{"start": start, "end": end, "fields": nFields})
+
+		// after that complete reader life cycle: k readers of the same bytes are open at the same time (two
+		// queries on one block, a merge of replicas) and are read field by field, one slot each in turns
+		k := rapid.IntRange(0, 3).Draw(t, "together")
+		if k > 0 {
+			rs := make([]encoding.TSDStreamReader, k)
+			for j := range rs {
+				rs[j] = encoding.NewTSDStreamReader(raw)
+			}
+			for i := range fields {
+				curs := make([]*cursor, k)
+				for j := range rs {
+					if !rs[j].HasNext() {
+						t.Fatalf("reader %d of %d: stream ends before field #%d of %d", j, k, i, len(fields))
+					}
+					id, dec := rs[j].Next()
+					seenDecoders[dec] = struct{}{}
+					if id != fields[i].id {
+						t.Fatalf("reader %d of %d: field #%d id %d, wrote %d", j, k, i, id, fields[i].id)
+					}
+					curs[j] = &cursor{dec: dec, blk: fields[i].blk, mode: rapid.SampledFrom(cursorModes).Draw(t, fmt.Sprintf("m%d_%d", i, j))}
+				}
+				for busy := true; busy; {
+					busy = false
+					for j, c := range curs {
+						if !c.done {
+							c.read(t, fmt.Sprintf("reader %d of %d open together, field #%d:", j, k, i), 1)
+							busy = true
+						}
+					}
+				}
+			}
+			for j := range rs {
+				if rs[j].HasNext() {
+					t.Fatalf("reader %d of %d: HasNext() after %d of %d fields", j, k, len(fields), len(fields))
+				}
+				rs[j].Close()
+			}
+		}
+		ev.Case("TestTSDStream", canon+fmt.Sprintf("|together=%d", k), nt, []string{fmt.Sprintf("fields=%d", nFields), fmt.Sprintf("readers-open-together=%d", k)},
+			map[string]any{"start": start, "end": end, "fields": nFields, "together": k})
 	})
 }
